@@ -27,6 +27,7 @@ func init() {
 		Scenarios: []Scenario{{Name: "M-LIMIT", Weight: 1, Run: c16Run}},
 		Quick:     300000,
 		Thorough:  20000000,
+		Require:   []string{"cancel.queuedWaiter", "cancel.waiterBehindAnother", "request.queued"},
 		Assume: []string{
 			"the total (cross-path) limit is checked as a bound and for work conservation at the end only; admission order is checked per path, as the property states",
 			"a caller cancelled while parked directly before its select has two ready cases (granted, cancelled): both outcomes are accepted and the run is marked racy",
